@@ -366,7 +366,10 @@ func main() {
 	legacyStream(r, run.Scale(60, 3000))
 	modeStream(r, run.Scale(1, 40))
 	plainStream(r, run.Scale(60, 5000))
-	n := run.Scale(600, 60000)
+	for i := run.Scale(200, 4000); i > 0; i-- {
+		runDynamic(genDynamic(r))
+	}
+	n := run.Scale(600, 40000)
 	for i := 0; i < n; i++ {
 		runHistory(genHistory(r, 10))
 	}
@@ -411,8 +414,8 @@ func fixedHistories() []histCase {
 
 // checkFloors: minimum coverage of a generated (non-replay) run.
 func checkFloors() []string {
-	if run.Replay != "" {
-		return nil
+	if run.Replay != "" || wedged > 0 {
+		return nil // a wedged run has reported oracle failures and stopped early
 	}
 	var bad []string
 	need := func(key string, min int) {
@@ -431,13 +434,20 @@ func checkFloors() []string {
 	need("conc:dynamic-store", run.Scale(80, 1500))
 	need("stream:legacy-get", run.Scale(60, 3000))
 	need("stream:plain-vs-memory", run.Scale(60, 5000))
-	need("ref:memory-store", run.Scale(60, 5000))
-	need("init:doc", run.Scale(400, 40000))
+	need("ref:memory-store", run.Scale(60, 4500))
+	need("init:doc", run.Scale(400, 28000))
+	need("put:entry-bytes-compared", run.Scale(800, 60000))
+	need("file-bytes:histories-compared", run.Scale(500, 32000))
+	need("file-bytes:read-by-model", run.Scale(500, 32000))
 	need("init:unparseable-but-loaded", run.Scale(2, 100))
 	need("init:symlinked-path", run.Scale(20, 2000))
 	need("store:disable-put", run.Scale(10, 1000))
+	need("dynamic:histories", run.Scale(150, 3000))
+	need("dynamic:native-routed", run.Scale(30, 600))
+	need("dynamic:put-to-file", run.Scale(100, 2000))
 	need("op:set-creds-store", run.Scale(50, 5000))
 	need("codec:decode", run.Scale(1000, 100000))
+	need("codec:json-string", run.Scale(2500, 75000))
 	need("doc:lone-surrogate", run.Scale(10, 500))
 	need("put:invalid-utf8", run.Scale(10, 500))
 	if run.Dist["crash:unaligned"]*4 > run.Dist["crash:judged-kills"] {
